@@ -151,3 +151,93 @@ pub fn root_err(e: &SudachiError) -> &SudachiError {
         x => x,
     }
 }
+
+
+/// Calls every public accessor of every morpheme (and of every on-demand sub-morpheme).
+/// Returns a checksum so that nothing is optimised away.
+pub fn consume_all(dict: &Dict, ml: &MList, list_cost: bool) -> usize {
+    use sudachi::analysis::Mode;
+    let mut acc = 0usize;
+    let mut out = MorphemeList::empty(dict);
+    let one = |m: &sudachi::analysis::morpheme::Morpheme<&Dict>| -> usize {
+        let mut a = 0usize;
+        a = a.wrapping_add((m.begin() + m.end() + m.begin_c() + m.end_c()) as usize);
+        a = a.wrapping_add((m.surface().len()) as usize);
+        a = a.wrapping_add((m.part_of_speech().len()) as usize);
+        a = a.wrapping_add((m.part_of_speech_id() as usize) as usize);
+        a = a.wrapping_add((m.dictionary_form().len() + m.normalized_form().len() + m.reading_form().len()) as usize);
+        a = a.wrapping_add((m.is_oov() as usize) as usize);
+        a = a.wrapping_add((m.word_id().as_raw() as usize) as usize);
+        a = a.wrapping_add(m.dictionary_id() as usize);
+        a = a.wrapping_add((m.synonym_group_ids().len()) as usize);
+        a = a.wrapping_add(m.total_cost() as usize);
+        a = a.wrapping_add((m.index()) as usize);
+        let wi = m.get_word_info();
+        a = a.wrapping_add((wi.surface().len() + wi.head_word_length() + wi.a_unit_split().len() + wi.b_unit_split().len() + wi.word_structure().len()) as usize);
+        a = a.wrapping_add(wi.dictionary_form_word_id() as usize);
+        a = a.wrapping_add((format!("{:?}", m).len()) as usize);
+        a
+    };
+    acc = acc.wrapping_add(ml.len());
+    if list_cost {
+        // only meaningful for unsplit (mode C) lists: split nodes carry i32::MAX placeholders
+        acc = acc.wrapping_add(ml.get_internal_cost() as usize);
+    }
+    acc = acc.wrapping_add((ml.surface().len()) as usize);
+    for m in ml.iter() {
+        acc = acc.wrapping_add(one(&m));
+        for sm in [Mode::A, Mode::B] {
+            out.clear();
+            if let Ok(true) = m.split_into(sm, &mut out) {
+                for s in out.iter() {
+                    acc = acc.wrapping_add(one(&s));
+                }
+            }
+        }
+    }
+    acc
+}
+
+/// input class of known finding F12 (JoinNumeric never terminates): numeral joining is configured
+/// and some dictionary word made only of NUMERIC (or only of KANJINUMERIC) characters has a
+/// normalised form that contains ',' or '.'
+pub fn f12_class(dic: &DicModel, cfg: &CfgModel) -> bool {
+    use crate::model::cfg::PathPlugin;
+    use crate::model::chardef::{KANJINUMERIC, NUMERIC};
+    if !cfg.path.iter().any(|p| matches!(p, PathPlugin::JoinNumeric { .. })) {
+        return false;
+    }
+    let cd = chardef_of(&cfg.chardef);
+    for d in 0..dic.num_dics() {
+        for e in dic.dic(d) {
+            if e.normalized.contains(',') || e.normalized.contains('.') {
+                let all = e.key.chars().fold(u32::MAX, |a, c| a & cd.classes(c));
+                if all & (NUMERIC | KANJINUMERIC) != 0 {
+                    return true;
+                }
+            }
+        }
+    }
+    false
+}
+
+thread_local! {
+    static CHARDEF_CACHE: std::cell::RefCell<std::collections::BTreeMap<u64, std::rc::Rc<crate::model::chardef::CharDefModel>>> = std::cell::RefCell::new(Default::default());
+}
+
+/// parsed reference model of a char.def source (cached per thread)
+pub fn chardef_of(src: &crate::model::cfg::FileSrc) -> std::rc::Rc<crate::model::chardef::CharDefModel> {
+    use crate::model::cfg::{read_src, FileSrc};
+    let key = match src {
+        FileSrc::Shipped => 1,
+        FileSrc::TestRes => 2,
+        FileSrc::Text(t) => crate::engine::digest(t) | 4,
+    };
+    CHARDEF_CACHE.with(|c| {
+        let mut c = c.borrow_mut();
+        if c.len() > 64 {
+            c.clear();
+        }
+        c.entry(key).or_insert_with(|| std::rc::Rc::new(crate::model::chardef::CharDefModel::parse(&read_src("char.def", src)))).clone()
+    })
+}
